@@ -339,14 +339,18 @@ func ruleFiltersGate(c *Ctx, rule string, prodLoop *ssa.Function) int {
 	for _, f := range fns {
 		f := f
 		eachInstr(f, func(b *ssa.BasicBlock, _ int, in ssa.Instruction) {
-			switch x := in.(type) {
-			case *ssa.Send:
-				switch nm, _ := fieldLoadName(x.Chan); nm {
-				case "dirChan":
-					judge(f, b, x.Pos(), "send on dirChan", "DirFilter")
-				case "fileChan":
-					judge(f, b, x.Pos(), "send on fileChan", "FileFilter")
+			for _, qs := range queueSendsIn(f) {
+				if qs.in != in {
+					continue
 				}
+				switch qs.name {
+				case "dirChan":
+					judge(f, b, in.Pos(), "send on dirChan", "DirFilter")
+				case "fileChan":
+					judge(f, b, in.Pos(), "send on fileChan", "FileFilter")
+				}
+			}
+			switch x := in.(type) {
 			case *ssa.Go:
 				if x.Call.StaticCallee() == prodLoop {
 					judge(f, b, x.Pos(), "producer started for a sub-directory", "DirFilter")
@@ -369,4 +373,80 @@ func ruleFiltersGate(c *Ctx, rule string, prodLoop *ssa.Function) int {
 		})
 	}
 	return n
+}
+
+// queueSend: a place where a path is put on one of the loop's queues.
+type queueSend struct {
+	in    ssa.Instruction
+	block *ssa.BasicBlock
+	name  string // dirChan | fileChan
+}
+
+// queueSendsIn: sends on a queue field in f - a send statement, the send case of a select, or a
+// call of a function of the package that sends on a channel parameter for which f passes a queue field.
+func queueSendsIn(f *ssa.Function) []queueSend {
+	var out []queueSend
+	chanName := func(v ssa.Value) string {
+		n, _ := fieldLoadName(v)
+		if n == "dirChan" || n == "fileChan" {
+			return n
+		}
+		return ""
+	}
+	sendsOnParam := func(g *ssa.Function) map[int]bool {
+		res := map[int]bool{}
+		if g == nil || g.Blocks == nil {
+			return res
+		}
+		idx := map[ssa.Value]int{}
+		for i, p := range g.Params {
+			idx[p] = i
+		}
+		eachInstr(g, func(_ *ssa.BasicBlock, _ int, in ssa.Instruction) {
+			switch x := in.(type) {
+			case *ssa.Send:
+				if i, ok := idx[x.Chan]; ok {
+					res[i] = true
+				}
+			case *ssa.Select:
+				for _, st := range x.States {
+					if st.Dir == types.SendOnly {
+						if i, ok := idx[st.Chan]; ok {
+							res[i] = true
+						}
+					}
+				}
+			}
+		})
+		return res
+	}
+	eachInstr(f, func(b *ssa.BasicBlock, _ int, in ssa.Instruction) {
+		switch x := in.(type) {
+		case *ssa.Send:
+			if n := chanName(x.Chan); n != "" {
+				out = append(out, queueSend{in, b, n})
+			}
+		case *ssa.Select:
+			for _, st := range x.States {
+				if st.Dir == types.SendOnly {
+					if n := chanName(st.Chan); n != "" {
+						out = append(out, queueSend{in, b, n})
+					}
+				}
+			}
+		case *ssa.Call:
+			g := x.Call.StaticCallee()
+			if g == nil || g.Pkg != f.Pkg || g == f {
+				return
+			}
+			for i := range sendsOnParam(g) {
+				if i < len(x.Call.Args) {
+					if n := chanName(x.Call.Args[i]); n != "" {
+						out = append(out, queueSend{in, b, n})
+					}
+				}
+			}
+		}
+	})
+	return out
 }
